@@ -441,3 +441,222 @@ theorem new_vars_lt_iff (m : List (Nat × Nat)) (n : Nat) :
     · omega
 
 end Ark.Mle
+namespace Ark.Mle
+
+/-! ## `Term.cmp` -/
+
+/-- lexicographic comparison of exponent vectors, from variable 0 upwards -/
+def LexLt (s o : List (Nat × Nat)) : Prop := ∃ v, expo s v < expo o v ∧ ∀ u < v, expo s u = expo o u
+
+/-- graded lexicographic order: total degree first, then `LexLt` -/
+def GLt (s o : Term) : Prop :=
+  Term.degree s < Term.degree o ∨ (Term.degree s = Term.degree o ∧ LexLt s o)
+
+theorem LexLt.irrefl (s : List (Nat × Nat)) : ¬ LexLt s s := by
+  rintro ⟨v, h, _⟩; omega
+
+theorem LexLt.trans {a b c : List (Nat × Nat)} (h1 : LexLt a b) (h2 : LexLt b c) : LexLt a c := by
+  obtain ⟨v1, h1, e1⟩ := h1
+  obtain ⟨v2, h2, e2⟩ := h2
+  rcases Nat.lt_trichotomy v1 v2 with h | h | h
+  · exact ⟨v1, by rw [← e2 v1 h]; exact h1, fun u hu => by rw [e1 u hu, e2 u (by omega)]⟩
+  · subst h; exact ⟨v1, by omega, fun u hu => by rw [e1 u hu, e2 u hu]⟩
+  · exact ⟨v2, by rw [e1 v2 h]; exact h2, fun u hu => by rw [e1 u (by omega), e2 u hu]⟩
+
+theorem LexLt.asymm {a b : List (Nat × Nat)} (h1 : LexLt a b) : ¬ LexLt b a :=
+  fun h2 => LexLt.irrefl a (h1.trans h2)
+
+theorem GLt.irrefl (s : Term) : ¬ GLt s s := by
+  rintro (h | ⟨_, h⟩)
+  · omega
+  · exact LexLt.irrefl s h
+
+theorem GLt.trans {a b c : Term} (h1 : GLt a b) (h2 : GLt b c) : GLt a c := by
+  rcases h1 with h1 | ⟨d1, l1⟩ <;> rcases h2 with h2 | ⟨d2, l2⟩
+  · left; omega
+  · left; omega
+  · left; omega
+  · right; exact ⟨by omega, l1.trans l2⟩
+
+theorem GLt.asymm {a b : Term} (h1 : GLt a b) : ¬ GLt b a :=
+  fun h2 => GLt.irrefl a (h1.trans h2)
+
+theorem expo_eq_zero (t : List (Nat × Nat)) (v : Nat) (h : ∀ vp ∈ t, vp.1 ≠ v) : expo t v = 0 := by
+  induction t with
+  | nil => rfl
+  | cons a t ih =>
+    rw [expo_cons, ih (fun vp hvp => h vp (by simp [hvp]))]
+    simp [h a (by simp)]
+
+theorem Normal.tail {a : Nat × Nat} {t : List (Nat × Nat)} (h : Term.Normal (a :: t)) :
+    Term.Normal t ∧ (∀ vp ∈ t, a.1 < vp.1) ∧ 0 < a.2 := by
+  obtain ⟨h1, h2⟩ := h
+  rw [List.pairwise_cons] at h1
+  exact ⟨⟨h1.2, fun vp hvp => h2 vp (by simp [hvp])⟩, h1.1, h2 a (by simp)⟩
+
+theorem natCmp_lt {a b : Nat} : Term.natCmp a b = .lt ↔ a < b := by
+  unfold Term.natCmp; split
+  · simp [*]
+  · split <;> simp [*]
+theorem natCmp_gt {a b : Nat} : Term.natCmp a b = .gt ↔ b < a := by
+  unfold Term.natCmp; split
+  · simp; omega
+  · split <;> simp [*]
+theorem natCmp_eq {a b : Nat} : Term.natCmp a b = .eq ↔ a = b := by
+  unfold Term.natCmp; split
+  · simp; omega
+  · split
+    · simp; omega
+    · simp; omega
+
+theorem powSum_cons (a : Nat × Nat) (t : List (Nat × Nat)) : powSum (a :: t) = a.2 + powSum t := by
+  simp [powSum]
+
+theorem cmpZip_spec (s o : List (Nat × Nat)) (hs : Term.Normal s) (ho : Term.Normal o)
+    (hd : powSum s = powSum o) :
+    (Term.cmpZip s o = .lt → LexLt s o) ∧ (Term.cmpZip s o = .eq → s = o) ∧
+    (Term.cmpZip s o = .gt → LexLt o s) := by
+  induction s generalizing o with
+  | nil =>
+    cases o with
+    | nil => simp [Term.cmpZip]
+    | cons b o =>
+      have := (Normal.tail ho).2.2
+      rw [powSum_cons] at hd; simp [powSum] at hd; omega
+  | cons a s ih =>
+    cases o with
+    | nil =>
+      have := (Normal.tail hs).2.2
+      rw [powSum_cons] at hd; simp [powSum] at hd; omega
+    | cons b o =>
+      obtain ⟨cv, cp⟩ := a
+      obtain ⟨ov, op⟩ := b
+      obtain ⟨hs', hsv, hcp⟩ := Normal.tail hs
+      obtain ⟨ho', hov, hop⟩ := Normal.tail ho
+      simp only at hsv hov hcp hop
+      have es0 : ∀ u, u ≤ cv → expo s u = 0 := fun u hu =>
+        expo_eq_zero s u (fun vp hvp => by have := hsv vp hvp; omega)
+      have eo0 : ∀ u, u ≤ ov → expo o u = 0 := fun u hu =>
+        expo_eq_zero o u (fun vp hvp => by have := hov vp hvp; omega)
+      unfold Term.cmpZip
+      by_cases hv : ov = cv
+      · subst hv
+        simp only [if_true]
+        by_cases hp : cp = op
+        · subst hp
+          simp only [ne_eq, not_true_eq_false, if_false]
+          rw [powSum_cons, powSum_cons] at hd
+          obtain ⟨i1, i2, i3⟩ := ih o hs' ho' (by simpa using hd)
+          refine ⟨fun h => ?_, fun h => by rw [i2 h], fun h => ?_⟩
+          · obtain ⟨v, h1, h2⟩ := i1 h
+            exact ⟨v, by rw [expo_cons, expo_cons]; omega,
+              fun u hu => by rw [expo_cons, expo_cons, h2 u hu]⟩
+          · obtain ⟨v, h1, h2⟩ := i3 h
+            exact ⟨v, by rw [expo_cons, expo_cons]; omega,
+              fun u hu => by rw [expo_cons, expo_cons, h2 u hu]⟩
+        · simp only [ne_eq, hp, not_false_eq_true, if_true]
+          have hz : ∀ u, u < ov → expo ((ov, cp) :: s) u = expo ((ov, op) :: o) u := by
+            intro u hu
+            rw [expo_cons, expo_cons, es0 u (by omega), eo0 u (by omega)]
+            split_ifs <;> omega
+          refine ⟨fun h => ⟨ov, ?_, hz⟩, fun h => absurd (natCmp_eq.1 h) hp,
+            fun h => ⟨ov, ?_, fun u hu => (hz u hu).symm⟩⟩
+          · rw [expo_cons, expo_cons, es0 ov (by omega), eo0 ov (by omega)]
+            simpa using natCmp_lt.1 h
+          · rw [expo_cons, expo_cons, es0 ov (by omega), eo0 ov (by omega)]
+            simpa using natCmp_gt.1 h
+      · simp only [hv, if_false]
+        refine ⟨fun h => ?_, fun h => absurd (natCmp_eq.1 h) hv, fun h => ?_⟩
+        · have hlt := natCmp_lt.1 h
+          refine ⟨ov, ?_, fun u hu => ?_⟩
+          · rw [expo_cons, expo_cons, es0 ov (by omega)]
+            split_ifs <;> omega
+          · rw [expo_cons, expo_cons, es0 u (by omega), eo0 u (by omega)]
+            split_ifs <;> omega
+        · have hlt := natCmp_gt.1 h
+          refine ⟨cv, ?_, fun u hu => ?_⟩
+          · rw [expo_cons, expo_cons, eo0 cv (by omega)]
+            split_ifs <;> omega
+          · rw [expo_cons, expo_cons, es0 u (by omega), eo0 u (by omega)]
+            split_ifs <;> omega
+
+/-- the three outcomes of `Term.cmp` on normal forms -/
+theorem cmp_spec (s o : Term) (hs : Term.Normal s) (ho : Term.Normal o) :
+    (Term.cmp s o = .lt → GLt s o) ∧ (Term.cmp s o = .eq → s = o) ∧ (Term.cmp s o = .gt → GLt o s) := by
+  unfold Term.cmp
+  by_cases hd : Term.degree s = Term.degree o
+  · simp only [hd, if_true]
+    obtain ⟨i1, i2, i3⟩ := cmpZip_spec s o hs ho (by rw [← degree_eq_powSum, ← degree_eq_powSum, hd])
+    exact ⟨fun h => Or.inr ⟨hd, i1 h⟩, i2, fun h => Or.inr ⟨hd.symm, i3 h⟩⟩
+  · simp only [hd, if_false]
+    exact ⟨fun h => Or.inl (natCmp_lt.1 h), fun h => absurd (natCmp_eq.1 h) hd,
+      fun h => Or.inl (natCmp_gt.1 h)⟩
+
+theorem cmp_lt_iff (s o : Term) (hs : Term.Normal s) (ho : Term.Normal o) :
+    Term.cmp s o = .lt ↔ GLt s o := by
+  obtain ⟨i1, i2, i3⟩ := cmp_spec s o hs ho
+  refine ⟨i1, fun h => ?_⟩
+  cases hc : Term.cmp s o with
+  | lt => rfl
+  | eq => exact absurd h (by rw [i2 hc]; exact GLt.irrefl o)
+  | gt => exact absurd h (GLt.asymm (i3 hc))
+
+theorem cmp_gt_iff (s o : Term) (hs : Term.Normal s) (ho : Term.Normal o) :
+    Term.cmp s o = .gt ↔ GLt o s := by
+  obtain ⟨i1, i2, i3⟩ := cmp_spec s o hs ho
+  refine ⟨i3, fun h => ?_⟩
+  cases hc : Term.cmp s o with
+  | gt => rfl
+  | eq => exact absurd h (by rw [i2 hc]; exact GLt.irrefl o)
+  | lt => exact absurd h (GLt.asymm (i1 hc))
+
+theorem cmp_eq_iff (s o : Term) (hs : Term.Normal s) (ho : Term.Normal o) :
+    Term.cmp s o = .eq ↔ s = o := by
+  obtain ⟨i1, i2, i3⟩ := cmp_spec s o hs ho
+  refine ⟨i2, fun h => ?_⟩
+  subst h
+  cases hc : Term.cmp s s with
+  | eq => rfl
+  | lt => exact absurd (i1 hc) (GLt.irrefl s)
+  | gt => exact absurd (i3 hc) (GLt.irrefl s)
+
+/-- a normal form is determined by its exponent vector -/
+theorem normal_ext (s o : Term) (hs : Term.Normal s) (ho : Term.Normal o)
+    (h : ∀ v, expo s v = expo o v) : s = o := by
+  induction s generalizing o with
+  | nil =>
+    cases o with
+    | nil => rfl
+    | cons b o =>
+      have := h b.1; have hb := (Normal.tail ho).2.2
+      rw [expo_cons] at this; simp at this; omega
+  | cons a s ih =>
+    cases o with
+    | nil =>
+      have := h a.1; have ha := (Normal.tail hs).2.2
+      rw [expo_cons] at this; simp at this; omega
+    | cons b o =>
+      obtain ⟨hs', hsv, hap⟩ := Normal.tail hs
+      obtain ⟨ho', hov, hbp⟩ := Normal.tail ho
+      have es0 : ∀ u, u ≤ a.1 → expo s u = 0 := fun u hu =>
+        expo_eq_zero s u (fun vp hvp => by have := hsv vp hvp; omega)
+      have eo0 : ∀ u, u ≤ b.1 → expo o u = 0 := fun u hu =>
+        expo_eq_zero o u (fun vp hvp => by have := hov vp hvp; omega)
+      have hv : a.1 = b.1 := by
+        rcases Nat.lt_trichotomy a.1 b.1 with hl | he | hg
+        · have := h a.1
+          rw [expo_cons, expo_cons, es0 _ (Nat.le_refl _), eo0 _ (by omega)] at this
+          simp at this; split_ifs at this <;> omega
+        · exact he
+        · have := h b.1
+          rw [expo_cons, expo_cons, eo0 _ (Nat.le_refl _), es0 _ (by omega)] at this
+          simp at this; split_ifs at this <;> omega
+      have hp : a.2 = b.2 := by
+        have := h a.1
+        rw [expo_cons, expo_cons, es0 _ (Nat.le_refl _), eo0 _ (by omega)] at this
+        simpa [hv] using this
+      have hab : a = b := Prod.ext hv hp
+      subst hab
+      rw [ih o hs' ho' (fun v => by have := h v; rw [expo_cons, expo_cons] at this; omega)]
+
+end Ark.Mle
